@@ -46,6 +46,14 @@ class Marker(Exception):
     pass
 
 
+import queue as _queue_mod
+
+
+class MarkerEmpty(Marker, _queue_mod.Empty):
+    """What a caller's result lets out when ITS OWN queue is exhausted (a result drawing tokens with get_nowait()): an
+    exception of a class the suites use internally is still the caller's exception."""
+
+
 class FalsyRunnerError(Exception):
     """An exception object that is falsy (an aggregate error raised with an empty list, say)."""
 
@@ -209,7 +217,7 @@ def execute(case, chooser):
                     raise Marker("caller's result raises at outcome %d" % case["cts_fault"])
             if abort and abort[0] == "result" and counts["events"] == abort[1]:
                 sch.abort_snapshot = snap_finished(sch, runlog)
-                raise Marker("caller's result raises at event %d" % abort[1])
+                raise (MarkerEmpty if case.get("abort_exc") == "Empty" else Marker)("caller's result raises at event %d" % abort[1])
     log = recorders.Log(hook)
     orig_add = log.add
 
@@ -746,6 +754,8 @@ def run(ctx):
                 case["abort"] = ["wrap", rng.randint(0, len(workers) - 1)]
             else:
                 case["abort"] = ["result", rng.randint(1, 12)]
+                if rng.random() < 0.4:
+                    case["abort_exc"] = "Empty"
         if "cts_fault" not in case and rng.random() < (0.35 if "abort" in case else 0.05):
             case["rerun"] = True
         ctx.execute("schedule", case)
